@@ -245,6 +245,9 @@ func (x *X) applyContract(s *State, callee *ssa.Function, ct *Contract, args []V
 		}
 		res = append(res, v)
 	}
+	for _, c := range ct.Sets {
+		s.ghost[c.LetVar] = x.flat(s, x.newEv(s, evalCtx{callee: callee, args: am, old: pre, results: res, post: true}).eval(c.Expr))
+	}
 	for _, c := range ct.Ensures {
 		if c.Assumed {
 			x.assumed[key+": trusted-ensures "+c.Name+" ("+c.Text+")"] = true
